@@ -171,7 +171,8 @@ def drive_arith(rec, quick):
     L = Lib.get()
     events = []
     # dot products: u (nrows groups) x v (nrows x ncols groups)
-    for nrows in list(range(0, 9 if quick else 34)) * (1 if quick else 3):
+    for nrows in (list(range(0, 9)) + [11, 12, 13, 15, 16, 17, 23, 24, 25, 31, 32, 33, 40, 41, 47, 48, 49, 63, 64, 65] if quick
+                  else list(range(0, 34)) * 3 + [40, 41, 47, 48, 49, 63, 64, 65, 100, 127, 128, 129]):
         for ncols, base in ((1, "reim4_vec_mat1col_product_"), (2, "reim4_vec_mat2cols_product_")):
             for variant in ("ref", "avx2", "ref", "avx2"):
                 u = [grp(rng) for _ in range(nrows)]
